@@ -58,6 +58,8 @@ def run(tier):
         if k != "o": return G.program(b)
         return "fn helper(a: i32) -> i32\n{\n\treturn: a\n}\n" + G.program(b).replace("fn main() -> i32", "fn main(p: i32) -> i32")
     srcs = [("%s%d" % (k, i), prog(k, b)) for i, (k, b) in enumerate(bodies)]
+    # ... and as the body of a `pub extern fn` (flags do not change what is allowed where, nor the lints)
+    srcs += [("%s%dX" % (k, i), prog(k, b).replace("fn main() -> i32", "pub extern fn entry() -> i32")) for i, (k, b) in enumerate(bodies) if k != "o" and i % 4 == 0]
     impl = C.run_harness("front", srcs, ck.work)
     items = [("syntax", cid, impl[cid][1]) for cid, _ in srcs if cid in impl and len(impl[cid]) >= 2 and impl[cid][1].startswith("(")]
     model = C.run_model(items, ck.work)
